@@ -1,51 +1,116 @@
 /-
   C17 — Attribute names map to the wire and back without loss.
-  Property theorems only (plus non-vacuity examples); helper lemmas are in Proofs/C17.lean.
-  All statements hold for every string type and every choice of the string operations (`StrOps`, no
-  law assumed), every map dictionary, every converter set, every identity / statement (any lengths).
+  Property theorems only (plus non-vacuity examples); helper lemmas are in Proofs/C17.lean and
+  Proofs/C17Tables.lean, the per-map table lemmas in the regenerated Gen/AttrMapsWf*.lean.
+
+  The general theorems hold for every string type and every choice of the string operations
+  (`StrOps`, no law assumed), every map dictionary, every converter set, every identity / wire
+  statement (any lengths, any values).  The table theorems are about the regenerated bundled maps and
+  the string operations on codes (`AttrCode.natOps`), the instance the driver runs.
+
+  Three places where the pinned code does not do what the property says are recorded, each with the
+  full statement (`…_full`), the theorem under an explicit decidable side condition, and a
+  counter-example (`…_counterexample : ¬ …_full`):
+    * `C17/bundled-maps-share-name-format` — `list_to_local` keeps ONE converter per name format
+      (side condition `distinctFormats`; the bundled adfs_v1x / adfs_v20 both use `…:unspecified`);
+    * `C17/case-colliding-map-keys` — `from_dict` lower-cases the keys of "to": local names that
+      differ only in case overwrite each other (side condition `sendSide`; the bundled saml_uri map
+      has DateOfBirth/dateOfBirth, BirthName/birthName, PlaceOfBirth/placeOfBirth, Gender/gender);
+    * `C17/eptid-empty-value` — an empty string sent through the eduPersonTargetedID special case
+      comes back as a dictionary, not as "" (side condition inside `rtSide`).
 -/
 import PysamlModel.Model.AttrConv
 import PysamlModel.Model.AttrCode
 import PysamlModel.Spec.C17
 import PysamlModel.Proofs.C17
+import PysamlModel.Proofs.C17Tables
+import PysamlModel.Gen.AttrMapsWf
 
 namespace C17
-open AttrConv C17Spec
+open AttrConv C17Spec AttrCode
 
 variable {α : Type} [DecidableEq α]
 
-/-- SENDING.  The model's answer always meets `specToWire`: every identity entry whose key the
-    sending map declares goes out under the declared wire name, with the map's name format, the key
-    as friendly name and exactly the given values; a refusal happens only when some value is not a
-    list of strings; `None` only when no map has the name format.  Side condition: the sending map
-    does not declare two different wire names for local names that differ only in case. -/
+/-! ## Sending -/
+
+/-- The model's answer always meets `specToWire`: every identity entry whose key the sending map
+    declares goes out under the declared wire name, with the map's name format, the key as friendly
+    name and exactly the given values; a refusal happens only when some value is not a list of
+    strings; `None` only when no map has the name format.  Side condition `sendSide`: for the keys of
+    the identity, the sending map does not declare two different wire names under local names that
+    differ only in case. -/
 theorem C17_model_meets_spec_wire (ops : StrOps α) (maps : List (MapDict α)) (s : Sender α)
-    (ava : List (α × LVals α)) (hmaps : ∀ m ∈ maps, isMap m = true)
-    (hcoh : ∀ m, sendingMap maps s = some m → coherentDecl (sendDecl ops m) = true) :
+    (ava : List (α × LVals α)) (hmaps : maps.all isMap = true) (hside : sendSide ops maps s ava = true) :
     specToWire ops (maps.map (declMap ops)) s ava
       ((sender (acFactory ops maps) s).map fun c => toWire ops c ava) = true := by
-  rw [acFactory_eq ops maps hmaps, sender_map]
+  rw [acFactory_eq ops maps (List.all_eq_true.mp hmaps), sender_map]
   unfold specToWire
   rw [senderMap_map]
+  unfold sendSide at hside
   cases hs : sendingMap maps s with
   | none => rfl
   | some m =>
+    rw [hs] at hside
     simp only [Option.map_some]
     cases hw : toWire ops (convOf ops m) ava with
     | raised => exact toWire_raised ops _ ava hw
-    | ok l => exact toWire_meets ops m (hcoh m hs) ava l hw
+    | ok l => exact toWire_meets ops m ava (List.all_eq_true.mp hside) l hw
 
-/-- RECEIPT.  The model's answer always meets `specToLocal`: a wire attribute whose name the map for
-    its name format declares appears under the declared local name with its values in order, white
-    space trimmed; an attribute whose name or name format no map declares is dropped, or, when
-    unknown attributes are allowed, appears under its wire name; nothing else appears.  Side
-    condition: no two maps of the set have the same name format. -/
+/-- The statement without the side condition. -/
+def C17_to_wire_full : Prop :=
+  ∀ (maps : List (MapDict Nat)) (s : Sender Nat) (ava : List (Nat × LVals Nat)), maps.all isMap = true →
+    specToWire natOps (maps.map (declMap natOps)) s ava
+      ((sender (acFactory natOps maps) s).map fun c => toWire natOps c ava) = true
+
+/-- "to": {"A": "x", "a": "y"} — the identity key "A" goes out as "y". -/
+def caseCollisionMap : MapDict Nat :=
+  { identifier := 0x166, to := some [(0x141, 0x178), (0x161, 0x179)] }
+
+theorem C17_to_wire_counterexample : ¬ C17_to_wire_full := by
+  intro h
+  have := h [caseCollisionMap] (.index 0) [(0x141, .list [.str 0x176])] (by decide +kernel)
+  revert this
+  decide +kernel
+
+/-- One entry, written out: a key the map declares (literally or up to case, coherently), a list of
+    strings.  The wire attribute has the declared name, the map's format, the key as friendly name
+    and one value per string, each carrying exactly that string (as text; inside a persistent NameID
+    element for the eduPersonTargetedID wire name). -/
+theorem C17_to_wire (ops : StrOps α) (m : MapDict α) (c : Conv α) (key v : α) (vs : List α)
+    (hm : isMap m = true) (hc : fromDict ops m = some c)
+    (hres : resolve (sendDecl ops m) key (ops.lower key) = .must v)
+    (hcoh : coherentAt (sendDecl ops m) (ops.lower key) = true) (ht : ops.truthy v = true) :
+    toWire1 ops c (key, .list (vs.map .str)) =
+      .ok ⟨some v, some m.identifier, some key,
+        some (if v = ops.eptidOid then vs.map (fun s => eptidValue ops (.str s))
+              else vs.map fun s => { text := some s })⟩ := by
+  rw [fromDict_eq ops m hm] at hc
+  cases hc
+  have hget : Dict.get (convOf ops m).to (ops.lower key) = some v :=
+    get_of_must (sendDecl ops m) key _ v hres (sendDecl_raw ops m key) hcoh
+  have hplain : doAvaList ops (vs.map LVal.str) = .ok (vs.map fun s => { text := some s }) := by
+    induction vs with
+    | nil => rfl
+    | cons s t ih => simp [doAvaList, doAva1, ih]
+  unfold toWire1
+  simp only [hget, Option.filter, ht, if_true]
+  by_cases hv : v = ops.eptidOid
+  · simp [hv, eptidValues, convOf, List.map_map, Function.comp_def]
+  · simp [hv, doAva, hplain, convOf]
+
+/-! ## Receipt -/
+
+/-- The model's answer always meets `specToLocal`: a wire attribute whose name the map for its name
+    format declares appears under the declared local name with its values in order, white space
+    trimmed; an attribute whose name or name format no map declares is dropped, or, when unknown
+    attributes are allowed, appears under its wire name; nothing else appears.  Side condition: no
+    two maps of the set have the same name format. -/
 theorem C17_model_meets_spec_local (ops : StrOps α) (maps : List (MapDict α)) (allow : Bool)
-    (attrs : List (WireAttr α)) (hmaps : ∀ m ∈ maps, isMap m = true)
+    (attrs : List (WireAttr α)) (hmaps : maps.all isMap = true)
     (hd : distinctFormats (maps.map (·.identifier)) = true) :
     specToLocal ops (maps.map (declMap ops)) allow attrs
       (listToLocal ops (acFactory ops maps) allow attrs) = true := by
-  rw [acFactory_eq ops maps hmaps]
+  rw [acFactory_eq ops maps (List.all_eq_true.mp hmaps)]
   unfold specToLocal
   simp only
   split
@@ -55,5 +120,325 @@ theorem C17_model_meets_spec_local (ops : StrOps α) (maps : List (MapDict α)) 
       simpa using hany
     rw [listToLocal, localGo_meets ops maps hd allow attrs [] hany']
     exact dictEq_refl _
+
+/-- One attribute whose name the map for its name format knows: it is stored under that map's local
+    name with exactly its values, in order, white space trimmed. -/
+theorem C17_to_local (ops : StrOps α) (maps : List (MapDict α)) (allow : Bool) (a : WireAttr α)
+    (hmaps : maps.all isMap = true) (hd : distinctFormats (maps.map (·.identifier)) = true)
+    (l : α) (vs : List (RVal α))
+    (h : expectLocal ops (maps.map (declMap ops)) allow a = .must l vs) :
+    localStep ops (acFactory ops maps) allow a = .put l vs := by
+  rw [acFactory_eq ops maps (List.all_eq_true.mp hmaps)]
+  exact (localStep_meets ops maps hd allow a).1 l vs h
+
+/-- …and `expectLocal` says `must l (trimmed values)` exactly in the situation the property names:
+    the attribute's name format is the identifier of map `m` of the set and `m`'s declared pairs
+    resolve the (trimmed, lower-cased) name to `l`. -/
+theorem C17_to_local_known (ops : StrOps α) (maps : List (MapDict α)) (allow : Bool) (m : MapDict α)
+    (hd : distinctFormats (maps.map (·.identifier)) = true) (hm : m ∈ maps)
+    (n l : α) (fn : Option α) (vs : List (WireValue α)) (hplain : vs.any (fun v => !v.ext.isEmpty) = false)
+    (hres : resolve (recvDecl ops m) n (ops.lower (ops.strip n)) = .must l) :
+    expectLocal ops (maps.map (declMap ops)) allow ⟨some n, some m.identifier, fn, some vs⟩ =
+      .must l (vs.map fun v => .str (trimmed ops v.text)) := by
+  have hne : (maps.map (declMap ops)).isEmpty = false := by
+    cases maps with
+    | nil => cases hm
+    | cons _ _ => rfl
+  unfold expectLocal
+  simp only [hplain, Bool.false_eq_true, if_false, hne]
+  rw [declMaps_filter ops maps hd m.identifier, find_of_distinct maps hd m hm]
+  simp only [Option.map_some, Option.toList_some, List.isEmpty_cons, Bool.false_eq_true, if_false,
+    List.flatMap_cons, List.flatMap_nil, List.append_nil, declMap, hres, knownValues]
+
+/-- An attribute whose name or name format no map of the set declares is dropped … -/
+theorem C17_unknown_dropped (ops : StrOps α) (maps : List (MapDict α)) (a : WireAttr α)
+    (hmaps : maps.all isMap = true) (hd : distinctFormats (maps.map (·.identifier)) = true)
+    (h : expectLocal ops (maps.map (declMap ops)) false a = .drop) :
+    localStep ops (acFactory ops maps) false a = .skip := by
+  rw [acFactory_eq ops maps (List.all_eq_true.mp hmaps)]
+  exact (localStep_meets ops maps hd false a).2 h
+
+/-- … and `expectLocal` says `drop` (unknown attributes not allowed) resp. `must <wire name>`
+    (allowed) exactly when the name format is that of no map (and is not `unspecified`), or the map
+    with that name format has no declared pair for the name. -/
+theorem C17_unknown (ops : StrOps α) (maps : List (MapDict α)) (allow : Bool)
+    (hd : distinctFormats (maps.map (·.identifier)) = true) (hne : maps ≠ [])
+    (n f : α) (fn : Option α) (vs : List (WireValue α)) (hplain : vs.any (fun v => !v.ext.isEmpty) = false)
+    (hstrip : ops.strip n = n)
+    (hunk : (maps.find? (fun m => m.identifier = f) = none ∧ f ≠ ops.unspecified) ∨
+      ∃ m, maps.find? (fun m => m.identifier = f) = some m ∧
+        resolve (recvDecl ops m) n (ops.lower (ops.strip n)) = .undefined) :
+    expectLocal ops (maps.map (declMap ops)) allow ⟨some n, some f, fn, some vs⟩ =
+      (if allow then .must n (vs.map fun v => .str (ops.strip (v.text.getD ops.empty))) else .drop) := by
+  have hne' : (maps.map (declMap ops)).isEmpty = false := by
+    cases maps with
+    | nil => exact absurd rfl hne
+    | cons _ _ => rfl
+  unfold expectLocal
+  simp only [hplain, Bool.false_eq_true, if_false, hne', hstrip, if_true, plainValues]
+  rw [declMaps_filter ops maps hd f]
+  rcases hunk with ⟨h1, h2⟩ | ⟨m, h1, h2⟩
+  · simp [h1, h2]
+  · simp only [h1, Option.map_some, Option.toList_some, List.isEmpty_cons, Bool.false_eq_true, if_false,
+      List.flatMap_cons, List.flatMap_nil, List.append_nil, declMap]
+    rw [hstrip] at h2
+    simp [h2]
+
+/-! ## Send, then receive with the same set of maps -/
+
+/-- The model's answer always meets `specRoundTrip`: every identity entry whose key the sending map
+    declares comes back under the local name the map declares for the wire name used, with all its
+    values, in order, white space trimmed (values of aliases that collapse to the same local name
+    are all there); nothing is refused unless some value is not a list of strings.
+    Side conditions: no two maps of the set share a name format; `rtSide` (see Spec/C17.lean). -/
+theorem C17_set_roundtrip (ops : StrOps α) (maps : List (MapDict α)) (s : Sender α) (allow : Bool)
+    (ava : List (α × LVals α)) (hmaps : maps.all isMap = true)
+    (hd : distinctFormats (maps.map (·.identifier)) = true)
+    (hside : rtSide ops maps s ava = true) :
+    specRoundTrip ops (maps.map (declMap ops)) s allow ava
+      (roundTrip ops (acFactory ops maps) s allow ava) = true := by
+  rw [acFactory_eq ops maps (List.all_eq_true.mp hmaps)]
+  unfold specRoundTrip roundTrip
+  rw [sender_map, senderMap_map]
+  unfold rtSide at hside
+  cases hs : sendingMap maps s with
+  | none => rfl
+  | some m =>
+    rw [hs] at hside
+    simp only [Bool.not_true, Bool.false_or, Bool.and_eq_true] at hside
+    obtain ⟨⟨hcoh', hwf⟩, hept⟩ := hside
+    have hcoh := List.all_eq_true.mp hcoh'
+    have hmem := sendingMap_mem hs
+    have hne : (maps.map (convOf ops)).isEmpty = false := by
+      cases maps with
+      | nil => cases hmem
+      | cons _ _ => rfl
+    simp only [Option.map_some]
+    cases hw : toWire ops (convOf ops m) ava with
+    | raised => exact toWire_raised ops _ ava hw
+    | ok w =>
+      cases hl : listToLocal ops (maps.map (convOf ops)) allow w with
+      | raised =>
+        simp only [hl]
+        cases hns : ava.any nonStringEntry with
+        | true => rfl
+        | false =>
+          exfalso
+          obtain ⟨a, ha, hr⟩ := localGo_raised ops _ allow w [] hl
+          obtain ⟨e, he, hwe⟩ := toWire_mem ops _ ava w hw a ha
+          have hes : nonStringEntry e = false := by
+            simp only [List.any_eq_false] at hns
+            simpa using hns e he
+          obtain ⟨n, f, vals, hn, _, hv, hsafe⟩ := toWire1_shape ops _ e a hwe hes
+          exact localStep_not_raised ops _ allow a hne n vals hn hv hsafe hr
+      | ok d =>
+        simp only [hl, Bool.and_eq_true, Bool.not_eq_true', List.all_eq_true]
+        constructor
+        · simp only [List.any_eq_false, List.mem_map]
+          rintro x ⟨e, _, rfl⟩
+          simp [rt_not_lost ops maps hd m hmem hwf e]
+        · intro l hlk
+          have hent : ∀ e ∈ ava, ∀ l vs a, expectRT ops (maps.map (declMap ops)) (declMap ops m) e = .must l vs →
+              toWire1 ops (convOf ops m) e = .ok a →
+              localStep ops (maps.map (convOf ops)) allow a = .put l vs := by
+            intro e he l vs a hexp ha
+            exact rt_entry ops maps hd m hmem allow e (by simpa using hcoh e he) l vs hexp
+              ((List.all_eq_true.mp hept) e he) a ha
+          obtain ⟨hsub, htouch⟩ := demanded_sublist ops (maps.map (convOf ops)) allow (convOf ops m)
+            (expectRT ops (maps.map (declMap ops)) (declMap ops m)) ava w hw hent l
+          rw [localGo_get ops _ allow w [] d hl l, htouch hlk]
+          simp only [Bool.true_or, if_true, Dict.get, Option.getD_none, List.nil_append]
+          exact List.isSublist_iff_sublist.mpr hsub
+
+/-- The same when the attributes are serialised and parsed in between (a missing NameFormat would
+    read as `unspecified`; every attribute the converters produce carries one). -/
+theorem C17_set_roundtrip_xml (ops : StrOps α) (maps : List (MapDict α)) (s : Sender α) (allow : Bool)
+    (ava : List (α × LVals α)) (hmaps : maps.all isMap = true)
+    (hd : distinctFormats (maps.map (·.identifier)) = true)
+    (hside : rtSide ops maps s ava = true) :
+    specRoundTrip ops (maps.map (declMap ops)) s allow ava
+      (roundTripXml ops (acFactory ops maps) s allow ava) = true := by
+  rw [roundTripXml_eq]
+  exact C17_set_roundtrip ops maps s allow ava hmaps hd hside
+
+/-- One declared key, a list of strings, one map: the round trip gives back exactly the canonical
+    local name with exactly the trimmed strings. -/
+theorem C17_roundtrip (ops : StrOps α) (m : MapDict α) (allow : Bool) (key v l : α) (vs : List α)
+    (hm : isMap m = true)
+    (hsend : resolve (sendDecl ops m) key (ops.lower key) = .must v)
+    (hcoh : coherentAt (sendDecl ops m) (ops.lower key) = true) (ht : ops.truthy v = true)
+    (hrecv : resolve (recvDecl ops m) v (ops.lower (ops.strip v)) = .must l)
+    (hept : v = ops.eptidOid → l = ops.eptidLocal ∧ ∀ s ∈ vs, ops.truthy s = true) :
+    roundTrip ops (acFactory ops [m]) (.index 0) allow [(key, .list (vs.map .str))] =
+      some (.ok [(l, vs.map fun s => .str (trimmed ops (some s)))]) := by
+  have hmaps : ∀ m' ∈ [m], isMap m' = true := by simpa using hm
+  have hd : distinctFormats ([m].map (·.identifier)) = true := by simp [distinctFormats]
+  rw [acFactory_eq ops [m] hmaps]
+  obtain ⟨c, hc⟩ : ∃ c, fromDict ops m = some c := ⟨_, fromDict_eq ops m hm⟩
+  have hc' : c = convOf ops m := by rw [fromDict_eq ops m hm] at hc; cases hc; rfl
+  have hw1 := C17_to_wire ops m c key v vs hm hc hsend hcoh ht
+  rw [hc'] at hw1
+  have hexp : expectRT ops ([m].map (declMap ops)) (declMap ops m) (key, .list (vs.map .str)) =
+      .must l (vs.map fun s => .str (trimmed ops (some s))) := by
+    have hren : (vs.map LVal.str).any (fun x => (renderText ops x).isNone) = false := by
+      simp [renderText]
+    have hallstr : (vs.map (LVal.str : α → LVal α)).all isStr = true := by simp [isStr]
+    unfold expectRT
+    simp only [hren, Bool.false_eq_true, if_false, declMap, hsend, ht, Bool.not_true, List.map_cons, List.map_nil,
+      List.filter_cons, decide_true, if_true, List.filter_nil, List.flatMap_cons, List.flatMap_nil,
+      List.append_nil, hrecv, List.map_map, Function.comp_def, renderText]
+    by_cases hv : v = ops.eptidOid
+    · obtain ⟨hl, _⟩ := hept hv
+      simp [hv, hl, hallstr]
+    · simp [hv]
+  have hok : eptidValuesOk ops (declMap ops m) (key, .list (vs.map .str)) = true := by
+    unfold eptidValuesOk
+    simp only [declMap, hsend]
+    by_cases hv : v = ops.eptidOid
+    · obtain ⟨_, hall⟩ := hept hv
+      simp only [hv, decide_true, Bool.not_true, Bool.false_or, List.all_map, List.all_eq_true]
+      intro s hs
+      exact hall s hs
+    · simp [hv]
+  have hstep := rt_entry ops [m] hd m (by simp) allow (key, .list (vs.map .str)) hcoh l _ hexp hok _ hw1
+  simp only [roundTrip, sender, List.map_cons, List.map_nil, List.getElem?_cons_zero, toWire, hw1,
+    listToLocal, localGo, hstep, Dict.extend, Dict.get, Dict.set]
+
+/-- The statement without `distinctFormats`. -/
+def C17_set_roundtrip_full : Prop :=
+  ∀ (maps : List (MapDict Nat)) (s : Sender Nat) (allow : Bool) (ava : List (Nat × LVals Nat)),
+    maps.all isMap = true → rtSide natOps maps s ava = true →
+    specRoundTrip natOps (maps.map (declMap natOps)) s allow ava
+      (roundTrip natOps (acFactory natOps maps) s allow ava) = true
+
+/-- The first two bundled maps (adfs_v1x, adfs_v20), identity {"emailAddress": ["a"]} sent through
+    the first: the attribute does not come back. -/
+theorem C17_set_roundtrip_counterexample : ¬ C17_set_roundtrip_full := by
+  intro h
+  have := h (Gen.AttrMaps.attrMaps.take 2) (.index 0) false
+    [(0x1656d61696c41646472657373, .list [.str 0x161])] (by decide +kernel) (by decide +kernel)
+  revert this
+  decide +kernel
+
+/-- The statement without the eduPersonTargetedID side condition. -/
+def C17_roundtrip_eptid_full : Prop :=
+  ∀ (maps : List (MapDict Nat)) (s : Sender Nat) (allow : Bool) (ava : List (Nat × LVals Nat)),
+    maps.all isMap = true → distinctFormats (maps.map (·.identifier)) = true →
+    rtSide natOps maps s ava false = true →
+    specRoundTrip natOps (maps.map (declMap natOps)) s allow ava
+      (roundTrip natOps (acFactory natOps maps) s allow ava) = true
+
+/-- a map with only the eduPersonTargetedID entry, in both directions -/
+def eptidMap : MapDict Nat :=
+  { identifier := 0x166
+    to := some [(Gen.AttrMaps.eptidLocal, Gen.AttrMaps.eptidOid)]
+    fro := some [(Gen.AttrMaps.eptidOid, Gen.AttrMaps.eptidLocal)] }
+
+/-- {"eduPersonTargetedID": [""]} comes back as [{"NameID": {"format": persistent}}]. -/
+theorem C17_roundtrip_eptid_counterexample : ¬ C17_roundtrip_eptid_full := by
+  intro h
+  have := h [eptidMap] (.index 0) false [(Gen.AttrMaps.eptidLocal, .list [.str 1])]
+    (by decide +kernel) (by decide +kernel) (by decide +kernel)
+  revert this
+  decide +kernel
+
+/-! ## The bundled maps (regenerated tables) -/
+
+/-- Every bundled map is an attribute map, knows on receipt every wire name it sends, has no two
+    receiving pairs that contradict each other, and — except under the four recorded look-up keys —
+    no two sending pairs that contradict each other.  (`decide +kernel`, one lemma per map and check
+    in Gen/AttrMapsWf/*.lean.) -/
+theorem C17_bundled_wf : ∀ m ∈ Gen.AttrMaps.attrMaps,
+    isMap m = true ∧ roundTripWf natOps m = true ∧ coherentDecl (recvDecl natOps m) = true ∧
+    ∀ q, q ∉ knownCaseCollisions → coherentAt (sendDecl natOps m) q = true := by
+  intro m hm
+  obtain ⟨h1, h2, h3⟩ := Gen.AttrMaps.all_checked m hm
+  obtain ⟨a, b, c, d⟩ := tableCheck_sound m _ h1 h2 h3
+  exact ⟨a, d, c, fun q hq => coherentAt_of_except _ _ b q hq⟩
+
+/-- The statement without the exception list. -/
+def C17_bundled_wf_full : Prop := ∀ m ∈ Gen.AttrMaps.attrMaps, mapWf natOps m = true
+
+/-- Some bundled map (saml_uri) declares two wire names under "dateofbirth". -/
+theorem C17_bundled_wf_counterexample : ¬ C17_bundled_wf_full := by
+  intro h
+  have hany : Gen.AttrMaps.attrMaps.any
+      (fun m => !coherentAt (sendDecl natOps m) 0x1646174656f666269727468) = true := by decide +kernel
+  obtain ⟨m, hm, hq⟩ := List.any_eq_true.mp hany
+  have hwf := h m hm
+  simp only [mapWf, coherent, Bool.and_eq_true] at hwf
+  rw [coherentAt_of_decl _ hwf.1.1] at hq
+  cases hq
+
+/-- The bundled set has two maps with the same name format. -/
+theorem C17_bundled_not_distinct :
+    distinctFormats (Gen.AttrMaps.attrMaps.map (·.identifier)) = false := by decide +kernel
+
+/-- Hence: for every sub-set of the bundled maps with pairwise different name formats, every sender,
+    every identity that avoids the four colliding keys and empty eduPersonTargetedID values, the
+    round trip loses nothing. -/
+theorem C17_bundled_roundtrip (maps : List (MapDict Nat)) (s : Sender Nat) (allow : Bool)
+    (ava : List (Nat × LVals Nat)) (hsub : ∀ m ∈ maps, m ∈ Gen.AttrMaps.attrMaps)
+    (hd : distinctFormats (maps.map (·.identifier)) = true)
+    (hkeys : ∀ e ∈ ava, natOps.lower e.1 ∉ knownCaseCollisions)
+    (hept : ∀ m, sendingMap maps s = some m → ava.all (eptidValuesOk natOps (declMap natOps m)) = true) :
+    specRoundTrip natOps (maps.map (declMap natOps)) s allow ava
+      (roundTrip natOps (acFactory natOps maps) s allow ava) = true := by
+  apply C17_set_roundtrip natOps maps s allow ava
+  · exact List.all_eq_true.mpr fun m hm => (C17_bundled_wf m (hsub m hm)).1
+  · exact hd
+  · unfold rtSide
+    cases hs : sendingMap maps s with
+    | none => rfl
+    | some m =>
+      obtain ⟨_, hwf, _, hcoh⟩ := C17_bundled_wf m (hsub m (sendingMap_mem hs))
+      simp only [Bool.not_true, Bool.false_or, Bool.and_eq_true]
+      refine ⟨⟨?_, hwf⟩, hept m hs⟩
+      exact List.all_eq_true.mpr fun e he => hcoh _ (hkeys e he)
+
+/-! ## Non-vacuity: concrete inputs meeting the hypotheses, with non-trivial outcomes -/
+
+/-- "to": {"Mail": " URN:X "}, "fro": {"urn:x": "mail"} — mixed case, padded wire name -/
+def demoMap : MapDict Nat :=
+  { identifier := 0x166
+    to := some [(0x14d61696c, 0x12055524e3a5820)]
+    fro := some [(0x175726e3a78, 0x16d61696c)] }
+
+-- sending {"MAIL": [" a "]}: the declared wire name, format "f", friendly name "MAIL", text " a "
+example : sendSide natOps [demoMap] (.index 0) [(0x14d41494c, .list [.str 0x1206120])] = true ∧
+    (sender (acFactory natOps [demoMap]) (.index 0)).map (fun c => toWire natOps c [(0x14d41494c, .list [.str 0x1206120])]) =
+      some (.ok [⟨some 0x12055524e3a5820, some 0x166, some 0x14d41494c, some [{ text := some 0x1206120 }]⟩]) := by
+  decide +kernel
+
+-- receiving name "Urn:X" with format "f": local name "mail", value trimmed; format "g": dropped
+example : distinctFormats ([demoMap].map (·.identifier)) = true ∧
+    listToLocal natOps (acFactory natOps [demoMap]) false
+      [⟨some 0x155726e3a58, some 0x166, none, some [{ text := some 0x1206120 }, { text := none }]⟩,
+       ⟨some 0x155726e3a58, some 0x167, none, some [{ text := some 0x161 }]⟩] =
+      .ok [(0x16d61696c, [.str 0x161, .str 1])] := by
+  decide +kernel
+
+-- unknown attributes allowed: the second one appears under its wire name
+example : listToLocal natOps (acFactory natOps [demoMap]) true
+      [⟨some 0x155726e3a58, some 0x167, none, some [{ text := some 0x161 }]⟩] =
+      .ok [(0x155726e3a58, [.str 0x161])] := by
+  decide +kernel
+
+-- the round trip of {"MAIL": [" a ", ""]} through demoMap gives {"mail": ["a", ""]}
+example : rtSide natOps [demoMap] (.index 0) [(0x14d41494c, .list [.str 0x1206120, .str 1])] = true ∧
+    roundTrip natOps (acFactory natOps [demoMap]) (.index 0) false [(0x14d41494c, .list [.str 0x1206120, .str 1])] =
+      some (.ok [(0x16d61696c, [.str 0x161, .str 1])]) := by
+  decide +kernel
+
+-- eduPersonTargetedID with a non-empty value makes the round trip (hypotheses of C17_roundtrip hold)
+example : rtSide natOps [eptidMap] (.index 0) [(Gen.AttrMaps.eptidLocal, .list [.str 0x1206120])] = true ∧
+    roundTrip natOps (acFactory natOps [eptidMap]) (.index 0) false [(Gen.AttrMaps.eptidLocal, .list [.str 0x1206120])] =
+      some (.ok [(Gen.AttrMaps.eptidLocal, [.str 0x161])]) := by
+  decide +kernel
+
+-- the bundled sub-set without adfs_v1x has pairwise different formats (C17_bundled_roundtrip applies)
+example : distinctFormats ((Gen.AttrMaps.attrMaps.drop 1).map (·.identifier)) = true ∧
+    (Gen.AttrMaps.attrMaps.drop 1).length = 4 := by
+  decide +kernel
 
 end C17
